@@ -1,5 +1,6 @@
 import NflowsModel.Properties.C19
 import NflowsModel.Lemmas.RoundCompose
+import NflowsModel.Lemmas.RoundFlow
 /-!
 # C19 (continued) — the numeric clause in the standard model of floating-point arithmetic
 
@@ -107,5 +108,64 @@ theorem two_precisions_example :
       |LF.dot (rndOps r32) [1, 2, 3] [4, 5, 6] - LF.dot (rndOps r64) [1, 2, 3] [4, 5, 6]|
         ≤ (((1 + (2 : ℝ) ^ (-24 : ℤ)) ^ 4 - 1) + ((1 + (2 : ℝ) ^ (-53 : ℤ)) ^ 4 - 1)) * 32 :=
   agree_example
+
+/-! ## whole vector layers and flows (`Lemmas/RoundLayers.lean`, `Lemmas/RoundFlow.lean`)
+
+A `Layer` is `F.linear` / the `LULinear` forward pass with given factors / a per-feature affine layer / LeakyReLU; `Layer.fwd`
+builds it from the executed programs of `Core/`, `flowFwd` chains layers with Core's own composite loop (`Wrap.cascade`), the
+log-abs-det being the rounded running sum.  Distances are in the sup norm of `V n = Fin n → ℝ`. -/
+
+/-- the forward pass of `LULinear` (executed `linear ∘ linear0`, given factors) in two precisions, entry-wise: the two rounding
+    budgets times the conditioning scale `Σ_j |L_ij| Σ_k |U_jk||x_k|` of the two-stage product -/
+theorem lu_two_precisions (h32 : Rnd u32 r32) (h64 : Rnd u64 r64)
+    (L U : List (List ℝ)) (b : List ℝ) (X : List (List ℝ)) (m : ℕ) (k i : ℕ)
+    (hk : k < X.length) (hm : ∀ row ∈ U, min row.length (X[k]).length ≤ m) (hi : i < L.length) (hb : i < b.length) :
+    |((LF.linear (rndOps r32) L b (LF.linear0 (rndOps r32) U X))[k]'(by simpa [LF.linear, LF.linear0] using hk))[i]'(by
+          simp [LF.linear, LF.linear0, LF.addV, LF.matVec]; omega)
+        - ((LF.linear (rndOps r64) L b (LF.linear0 (rndOps r64) U X))[k]'(by
+            simpa [LF.linear, LF.linear0] using hk))[i]'(by
+          simp [LF.linear, LF.linear0, LF.addV, LF.matVec]; omega)|
+      ≤ (((1 + u32) ^ (min (L[i]).length U.length + m + 3) - 1) + ((1 + u64) ^ (min (L[i]).length U.length + m + 3) - 1))
+          * wsum L[i] (U.map fun row => absDot row X[k])
+        + (u32 + u64) * |b[i]| :=
+  f32_f64_agree_lu h32 h64 L U b X m k i hk hm hi hb
+
+/-- an executed flow of such layers against the exact flow: both return vectors of the right width and differ, in the sup norm,
+    by at most the explicit recursion `errB` over the flow's stages (own rounding error of each stage + Lipschitz constant
+    `‖W‖∞` / `|s|` / `max 1 |σ|` times the error so far) -/
+theorem flow_error {n : ℕ} {u : ℝ} {r : ℝ → ℝ} (h : Rnd u r) (ls : List Layer) (hwf : ∀ l ∈ ls, l.WF n) (x : List ℝ)
+    (hx : x.length = n) {y y' : List ℝ} {l l' : ℝ}
+    (hc : flowFwd (rndX r e) ls x = .ok (y, l)) (he : flowFwd (NF.realX e) ls x = .ok (y', l')) :
+    y.length = n ∧ y'.length = n ∧ dist (toV n y) (toV n y') ≤ errB (stagesOf n u r e ls) (toV n x) 0 :=
+  flow_err e h ls hwf x hx hc he
+
+/-- … and the same flow in two precisions -/
+theorem flow_two_precisions {n : ℕ} (h32 : Rnd u32 r32) (h64 : Rnd u64 r64)
+    (ls : List Layer) (hwf : ∀ l ∈ ls, l.WF n) (x : List ℝ) (hx : x.length = n) {y y' : List ℝ} {l l' : ℝ}
+    (hc : flowFwd (rndX r32 e) ls x = .ok (y, l)) (he : flowFwd (rndX r64 e) ls x = .ok (y', l')) :
+    dist (toV n y) (toV n y')
+      ≤ errB (stagesOf n u32 r32 e ls) (toV n x) 0 + errB (stagesOf n u64 r64 e ls) (toV n x) 0 :=
+  f32_f64_agree_flow e h32 h64 ls hwf x hx hc he
+
+/-- the flow's log-abs-det (layers with constant Jacobian): the exact total is `Σ_j ℓ_j`; the executed rounded running sum is
+    within the stated budget of it, and two precisions within the sum of their budgets -/
+theorem flow_logdet_two_precisions {n : ℕ} (h32 : Rnd u32 r32) (h64 : Rnd u64 r64)
+    (ls : List Layer) (hconst : ∀ l ∈ ls, l.Const) (hwf : ∀ l ∈ ls, l.WF n)
+    (x : List ℝ) (hx : x.length = n) {y y' : List ℝ} {l l' : ℝ}
+    (hc : flowFwd (rndX r32 e) ls x = .ok (y, l)) (he : flowFwd (rndX r64 e) ls x = .ok (y', l')) :
+    |l - l'| ≤ (((1 + u32) ^ ls.length - 1) * (absSum (ls.map Layer.ldExact) + (ls.map (Layer.ldEps u32)).sum)
+          + (ls.map (Layer.ldEps u32)).sum)
+        + (((1 + u64) ^ ls.length - 1) * (absSum (ls.map Layer.ldExact) + (ls.map (Layer.ldEps u64)).sum)
+          + (ls.map (Layer.ldEps u64)).sum) :=
+  f32_f64_agree_flow_ld e h32 h64 ls hconst hwf x hx hc he
+
+/-- non-vacuity with numbers: a 2×2 LU layer followed by a LeakyReLU (`|σ| ≤ 1`) on `x = [1, −2]`, run with
+    `r x = x (1 + 2^-24)` and `r x = x (1 + 2^-53)`: both runs return, and the outputs differ by at most `2^-14` -/
+theorem flow_two_precisions_example (slope : Float) (Ls : ℝ) (hσ : |e slope| ≤ 1) :
+    ∃ y y' : List ℝ, ∃ l l' : ℝ,
+      flowFwd (rndX (fun x => x * (1 + (2 : ℝ) ^ (-24 : ℤ))) e) (exFlow slope Ls) [1, -2] = .ok (y, l) ∧
+      flowFwd (rndX (fun x => x * (1 + (2 : ℝ) ^ (-53 : ℤ))) e) (exFlow slope Ls) [1, -2] = .ok (y', l') ∧
+      dist (toV 2 y) (toV 2 y') ≤ (2 : ℝ) ^ (-14 : ℤ) :=
+  flow_example_numeric e slope Ls hσ
 
 end Properties.C19
